@@ -177,6 +177,9 @@ func freshErrorType(v ssa.Value) string {
 
 // calleeNames renders the possible callees of a call.
 func calleeNames(p *load.Program, c ssa.CallInstruction) string {
+	if cc := c.Common(); cc.IsInvoke() {
+		return ssau.TypeName(cc.Value.Type()) + "." + cc.Method.Name() + " (interface call)"
+	}
 	var names []string
 	for _, f := range p.Callees(c) {
 		names = append(names, p.FuncName(f))
@@ -192,3 +195,5 @@ func calleeNames(p *load.Program, c ssa.CallInstruction) string {
 }
 
 func sprintf(f string, a ...interface{}) string { return fmt.Sprintf(f, a...) }
+
+func sortStrings(s []string) { sort.Strings(s) }
